@@ -51,14 +51,17 @@ Definition erow := (key * bool)%type.
     websocket traffic with attachments while a poll response of the old transport is in flight *)
 (** last component: how often the offset-probe handler (one more string parameter than the
     emitter sends) saw a non-empty / an empty extra argument *)
-Definition ccase := ((bool * bool * bool * bool) * list nrow * list erow * list key * (N * N))%type.
+(** Once registrations: the (connection, name index) pairs that have a Once handler, and what those
+    handlers were handed (keys carry the BASE name index). *)
+Definition once_part := (list (N * N) * list key)%type.
+Definition ccase := ((bool * bool * bool * bool) * list nrow * list erow * list key * (N * N) * once_part)%type.
 
 Definition find_name (i : N) (ns : list nrow) : option nrow :=
   find (fun r => N.eqb (fst (fst r)) i) ns.
 
 (** the model's side condition for one emitted event, through [handler_runs] of Sio/EndToEnd.v *)
 Definition event_ok (c : ccase) (e : erow) : bool :=
-  let '(fl, ns, _, _, _) := c in
+  let '(fl, ns, _, _, _, _) := c in
   let '(rec, dir, strips, _) := fl in
   let '(_, ni, _) := fst e in
   match find_name ni ns with
@@ -70,19 +73,32 @@ Definition event_ok (c : ccase) (e : erow) : bool :=
 (** an event outside C09's side condition breaks the connection (parse error), after which the
     rest of the history is only constrained to be a part of what was sent *)
 Definition conn_safe (c : ccase) : bool :=
-  let '(fl, ns, em, _, _) := c in
+  let '(fl, ns, em, _, _, _) := c in
   let '(_, _, _, wsatt) := fl in
   feeders_safe true wsatt &&
   forallb (fun e => match find_name (snd (fst (fst e))) ns with
                     | Some (_, _, name_ok) => name_ok | None => false end) em.
 
 Definition predicted (c : ccase) : list key :=
-  let '(_, _, em, _, _) := c in map fst (filter (event_ok c) em).
+  let '(_, _, em, _, _, _) := c in map fst (filter (event_ok c) em).
+
+(** A Once handler of (connection, name): handed exactly one of the events emitted under that
+    name on that connection (none if there was none), intact.  [base] are the emitted keys with
+    their base name index (registration 0). *)
+Definition same_cn (cn : N * N) (k : key) : bool :=
+  let '(c, n, _) := k in N.eqb c (fst cn) && N.eqb n (snd cn).
+Definition once_ok (base : list key) (oregs : list (N * N)) (odel : list key) : bool :=
+  forallb (fun k => existsb (key_eqb k) base) odel
+  && forallb (fun k => existsb (fun cn => same_cn cn k) oregs) odel
+  && forallb (fun cn =>
+        Nat.eqb (length (filter (same_cn cn) odel))
+                (if existsb (same_cn cn) base then 1 else 0)) oregs.
 
 (** Property oracle on the observation alone: every emitted event was handed exactly once, intact,
     to the handler registered for its name on its connection, and nothing else was handed. *)
 Definition oracle (c : ccase) : bool :=
-  let '(_, _, em, del, _) := c in ms_eq del (map fst em).
+  let '(_, _, em, del, _, (oregs, odel)) := c in
+  ms_eq del (map fst em) && once_ok (map fst em) oregs odel.
 
 (** Correspondence: the implementation delivered what the model predicts (including the predicted
     non-deliveries), and the harness's classification equals the model's side condition. *)
@@ -91,7 +107,7 @@ Definition model_appends_offset (rec dir strips : bool) : bool :=
   Nat.ltb 2 (length (snd (stamp N N N (fun o => o) (mkCfg rec dir strips) ((0%N, [1%N; 2%N]), 7%N)))).
 
 Definition agree (c : ccase) : bool :=
-  let '(fl, _, em, del, (probe_set, probe_zero)) := c in
+  let '(fl, _, em, del, (probe_set, probe_zero), _) := c in
   let '(rec, dir, strips, _) := fl in
   forallb (fun e => Bool.eqb (snd e) (event_ok c e)) em
   && (let '(_, _, _, wsatt) := fl in
